@@ -429,6 +429,9 @@ class Gen:
         return app(op, [a, b], BOOL)
 
     def p_named(self, sort, d):
+        if self.bound:
+            # SMT-LIB only allows :named on closed terms (not under a binder)
+            return self.term(BOOL, d)
         t = self.term(BOOL, d)
         return T(['!', t.plain, ':named', self.fresh('n')], BOOL, [((1, ), t)], '!')
 
